@@ -209,11 +209,27 @@ class BoolExpr:
         if exc is not None:
             sig["exc"] = exc["exc"]
             sig["func"] = exc["where"][1]
-            regs = self.regions(xs)
-            cr = R.x_crossings(R.polys_of(regs["A"]), R.polys_of(regs["B"]))
-            near = any(min(abs(u), abs(1 - u)) < F(2, 10**6) or min(abs(v), abs(1 - v)) < F(2, 10**6) for *_, u, v in cr)
-            sig["crossing_within_2e-6_of_a_vertex"] = bool(near)
+        regs = self.regions(xs)
+        pa, pb = R.polys_of(regs["A"]), R.polys_of(regs["B"])
+        if self.C:
+            pa = pa + R.polys_of(regs["C"])
+        d2 = near_contact_d2(pa, pb)
+        sig["near_contact_1e-5"] = bool(d2 is not None and d2 < F(1, 10**10))
+        sig["_min_nonzero_vertex_to_other_boundary_dist2"] = str(d2)
         return sig
+
+
+def near_contact_d2(pa, pb):
+    """smallest non-zero squared distance between a vertex of one operand and the boundary of
+    the other (exact); None when there is none"""
+    best = None
+    for P, Q in ((pa, pb), (pb, pa)):
+        for vs in P:
+            for v in vs:
+                d = R.x_dist2_boundary(v, Q) if Q else None
+                if d is not None and d != 0 and (best is None or d < best):
+                    best = d
+    return best
 
 
 def _short(d):
